@@ -264,6 +264,10 @@ class CostCfg(HGCfg):
     def source(self):
         f = FSCfg(self.elem, self.cmp, "less", self.under, self.alloc)
         maxn = 100 if self.under.startswith("f") else 1000000
+        if self.elem == "K1":
+            maxn = min(maxn, 62)  # keys 4, 8, .. and the gaps must fit 8 bits
+        if self.elem == "K2":
+            maxn = min(maxn, 8000)  # .. 16 bits
         return ("#define VF_MAX_N %d\n" % maxn) + f.source().replace('"flatset_history_main.hpp"', '"set_cost_main.hpp"').replace(f.name, self.name)
 
 
@@ -272,12 +276,17 @@ COST_QUICK = [
     CostCfg("NTR", "greater", "s4", "basic"),
     CostCfg("TR", "coarse", "std", "std"),
     CostCfg("TC8", "stateful", "f128"),
+    # narrow keys: thresholds expressed in bytes (elements per cache line) move with sizeof(T)
+    CostCfg("K1", "less", "v"),
+    CostCfg("K2", "greater", "s4", "basic"),
 ]
 COST_THOROUGH = [
     CostCfg("TR", "less", "s4", "realloc"),
     CostCfg("NTR", "coarse", "v", "exact"),
     CostCfg("TC12", "greater", "std", "amc"),
     CostCfg("TC8", "less", "v", compiler="clang++-14"),
+    CostCfg("K2", "less", "std", "std"),
+    CostCfg("K1", "stateful", "f128"),
 ]
 
 
